@@ -114,6 +114,67 @@ class LoopSpec:
         self.name = name
         self.at_exit = at_exit
 
+    def _begin_iteration(self, st, env, node):
+        """after havoc: remember what must stay unchanged in one iteration unless it was havocked"""
+        import ast as _ast
+        from .heap import snapshot as _snap
+
+        assigned = set()
+        for sub in _ast.walk(_ast.Module(body=list(node.body), type_ignores=[])):
+            if isinstance(sub, _ast.Name) and isinstance(sub.ctx, (_ast.Store, _ast.Del)):
+                assigned.add(sub.id)
+        tgt = node.target if hasattr(node, "target") else None
+        if tgt is not None:
+            for sub in _ast.walk(tgt):
+                if isinstance(sub, _ast.Name):
+                    assigned.add(sub.id)
+        return {"heap": _snap(st), "havocked": set(st.ghost.get("havocked", set())),
+                "vars": {k: (v, [z3.simplify(t) for t in v._state()]) for k, v in env.vars.items() if hasattr(v, "_state")},
+                "assigned": assigned}
+
+    def _frame_obligations(self, st, env, lab, rec, pre_env):
+        """everything that was not havocked must be unchanged by the body (else the exit path would be unsound)"""
+        from .heap import heap as _heap
+
+        h = _heap(st)
+        for key, arr in h.items():
+            if (key[0], key[1]) in rec["havocked"]:
+                continue
+            before = rec["heap"].get(key)
+            if before is not None and not before.eq(arr):
+                st.prove("%s.frame.%s.%s" % (lab, key[0], key[1]), before == arr)
+        for k, (obj, before) in rec["vars"].items():
+            if k in self._havoc_names:
+                continue
+            now = [z3.simplify(t) for t in obj._state()]
+            for b, n_ in zip(before, now):
+                if not b.eq(n_):
+                    st.prove("%s.frame.var.%s" % (lab, k), b == n_)
+        # plain variables assigned by the body must have been havocked by the spec (or be loop-local)
+        for k in rec["assigned"]:
+            if k in self._havoc_names:
+                continue
+            if k in pre_env and k in env.vars and env.vars[k] is not pre_env[k]:
+                st.prove("%s.frame.name.%s-assigned-in-body-but-not-havocked" % (lab, k), z3.BoolVal(False))
+
+    def _do_havoc(self, st, env, old):
+        st.ghost["havocked"] = set()
+        before = dict(env.vars)
+        states = {k: [t for t in v._state()] for k, v in env.vars.items() if hasattr(v, "_state")}
+        self.havoc(st, env, old)
+        changed = {k for k, b in states.items() if k in env.vars and hasattr(env.vars[k], "_state")
+                   and any(not x.eq(y) for x, y in zip(b, env.vars[k]._state()))}
+        self.extra_havoc_names = changed
+        names = set()
+        for k in set(before) | set(env.vars):
+            if k not in env.vars or k not in before or env.vars[k] is not before[k]:
+                names.add(k)
+        for k, v in env.vars.items():
+            if hasattr(v, "_state") and k in before and before[k] is v:
+                pass
+        self._havoc_names = names | getattr(self, "extra_havoc_names", set())
+        return dict(env.vars)
+
     def _label(self, lid):
         return self.name or ("%s.loop#%d" % (lid[0].split(".")[-1], lid[1]))
 
@@ -135,7 +196,8 @@ class LoopSpec:
         choose = st.fresh("loopbody", "bool")
         if st.fork(choose):
             # arbitrary iteration
-            self.havoc(st, env, old)
+            pre_env = self._do_havoc(st, env, old)
+            rec = self._begin_iteration(st, env, node)
             k = SR(st.fresh_int("iter"))
             st.assume(z3.And(k.t >= 0, k.t < z3num(n)))
             for nm, f in self.inv(st, env, k, old):
@@ -153,9 +215,10 @@ class LoopSpec:
                 return  # continue after the loop with the state at the break
             for nm, f in self.inv(st, env, SR(k.t + 1), old):
                 st.prove("%s.preserve.%s" % (lab, nm), f)
+            self._frame_obligations(st, env, lab, rec, pre_env)
             raise PathKilled()
         else:
-            self.havoc(st, env, old)
+            self._do_havoc(st, env, old)
             for nm, f in self.inv(st, env, n if isinstance(n, SR) else SR(z3.IntVal(n)), old):
                 st.assume(f)
             if self.at_exit is not None:
@@ -179,7 +242,8 @@ class LoopSpec:
             st.prove("%s.init.%s" % (lab, nm), f)
         choose = st.fresh("loopbody", "bool")
         if st.fork(choose):
-            self.havoc(st, env, old)
+            pre_env = self._do_havoc(st, env, old)
+            rec = self._begin_iteration(st, env, node)
             done = fresh_set(st, "done")
             x = st.fresh_int("elem")
             st.assume(done.subset_of(dom))
@@ -196,9 +260,10 @@ class LoopSpec:
             done2 = SymSet(z3.Store(done.arr, x, z3.BoolVal(True)))
             for nm, f in self.inv(st, env, done2, old):
                 st.prove("%s.preserve.%s" % (lab, nm), f)
+            self._frame_obligations(st, env, lab, rec, pre_env)
             raise PathKilled()
         else:
-            self.havoc(st, env, old)
+            self._do_havoc(st, env, old)
             for nm, f in self.inv(st, env, dom, old):
                 st.assume(f)
             interp.exec_block(node.orelse, env, module)
@@ -215,7 +280,8 @@ class LoopSpec:
             st.prove("%s.init.%s" % (lab, nm), f)
         choose = st.fresh("loopbody", "bool")
         if st.fork(choose):
-            self.havoc(st, env, old)
+            pre_env = self._do_havoc(st, env, old)
+            rec = self._begin_iteration(st, env, node)
             for nm, f in self.inv(st, env, None, old):
                 st.assume(f)
             if not interp.truth(interp.eval(node.test, env, module)):
@@ -232,9 +298,10 @@ class LoopSpec:
             if v0 is not None:
                 v1 = self.variant(st, env)
                 st.prove("%s.variant.decreases" % lab, z3.And(v0 >= 0, v1 < v0))
+            self._frame_obligations(st, env, lab, rec, pre_env)
             raise PathKilled()
         else:
-            self.havoc(st, env, old)
+            self._do_havoc(st, env, old)
             for nm, f in self.inv(st, env, None, old):
                 st.assume(f)
             if interp.truth(interp.eval(node.test, env, module)):
